@@ -23,7 +23,8 @@ class ActModel(mg.GenModel):
   """GenModel whose replay form keeps the actuator specs (the check needs them to interpret the XML)."""
 
   def to_json(self):
-    keep = ('acts', 'jfrc', 'tfrc', 'gravcomp', 'groupdisable', 'flags', 'integrator', 'family', 'labels')
+    keep = ('acts', 'jfrc', 'tfrc', 'gravcomp', 'groupdisable', 'flags', 'integrator', 'family', 'labels', 'condim1',
+            'timestep')
     # as one JSON string: the runner flattens deeply nested replay objects
     return dict(xml=self.xml, info_json=json.dumps({k: self.info[k] for k in keep if k in self.info}))
 
@@ -178,6 +179,8 @@ def _actuator(draw, k, info, tkinds, family, only=None):
            'general_dyn', 'muscle', 'general_muscle', 'pid', 'orientation', 'dcmotor']
   if family == 'contact':
     kinds += ['adhesion'] * 8 + ['general_body'] * 3
+  if family == 'delay':
+    kinds = [k_ for k_ in kinds if k_ not in ('orientation', 'dcmotor')]
   kind = draw(st.sampled_from(list(only) if only else kinds))
   name = 'a%d' % k
   spec = dict(name=name, kind=kind, group=0, actearly=False, oracle='force')
@@ -440,6 +443,17 @@ def _actuator(draw, k, info, tkinds, family, only=None):
   else:
     spec['actlimited'] = False
     spec['actrange'] = [0.0, 0.0]
+  # ---- control delay through the history buffer (family 'delay'): scalar-input actuators only
+  spec['delay'] = None
+  if family == 'delay' and nctrl == 1 and kind != 'dcmotor' and draw(st.integers(0, 3)) != 0:
+    ns = draw(st.integers(1, 5))
+    frac = draw(st.sampled_from([1.0, 1.0, 0.5, 0.3, 1.3]))      # delay = frac * nsample * timestep (1.3: non-causal read)
+    interp = draw(st.sampled_from(['zoh', 'zoh', 'linear', 'cubic']))
+    attrs['nsample'] = str(ns)
+    if interp != 'zoh' or draw(st.booleans()):
+      attrs['interp'] = interp
+    spec['delay'] = dict(nsample=ns, frac=frac, interp=interp)     # the delay attribute is filled in by act_models (needs dt)
+    attrs['delay'] = '@DELAY%d@' % k
   spec['attrs'] = {k_: str(v) for k_, v in attrs.items()}
   return '<%s%s/>' % (tag, _a(attrs)), spec
 
@@ -456,12 +470,15 @@ def act_models(draw, family='tree', max_bodies=4, max_act=5):
   """family 'tree': no contacts, every transmission except body. family 'contact': colliding geoms + plane,
   adhesion/body transmissions plus the others."""
   contact = family == 'contact'
+  delayfam = family == 'delay'
   # own option element: integrator, timestep, the two flags of interest, actuatorgroupdisable
   integ = draw(st.sampled_from(['Euler', 'implicit', 'implicitfast', 'RK4']))
   oa = dict(timestep=fmt(draw(num(0.0005, 0.01, 4))), integrator=integ,
             jacobian=draw(st.sampled_from(['dense', 'sparse', 'auto'])))
+  condim1 = False
   if contact:
-    oa['cone'] = draw(st.sampled_from(['pyramidal', 'elliptic']))
+    oa['cone'] = draw(st.sampled_from(['pyramidal', 'pyramidal', 'elliptic']))
+    condim1 = draw(st.integers(0, 2)) == 0     # frictionless sub-family: every geom (and the floor) condim 1
   if draw(st.integers(0, 3)) == 0:
     oa['gravity'] = fmt([draw(num(-3, 3, 1)), draw(num(-3, 3, 1)), draw(num(-10, 2, 1))])
   gd = []
@@ -478,10 +495,12 @@ def act_models(draw, family='tree', max_bodies=4, max_act=5):
   optx = '<option%s>%s</option>' % (_a(oa), '<flag%s/>' % _a(fl) if fl else '')
   gm = draw(mg.models(max_bodies=max_bodies, actuators=False, sensors=False, equalities=False, tendons=True,
                       contacts=contact, plane=True if contact else False, opt=optx, sites=True,
-                      geom_kwargs=dict(margin=True) if contact else None,
+                      geom_kwargs=(dict(margin=True, condims=(1,)) if condim1 else dict(margin=True)) if contact else None,
                       joint_kwargs=dict(limits=False, frictionloss=False)))
   info = gm.info
   xml = gm.xml
+  if condim1:
+    xml = xml.replace('<worldbody>', '<default><geom condim="1"/></default><worldbody>', 1)
   # modelgen can put a hinge and a ball joint on one body (4 rotational dofs on one anchor: singular inertia matrix,
   # engine errors unrelated to actuation): turn such hinges into slides
   byb = {}
@@ -550,11 +569,19 @@ def act_models(draw, family='tree', max_bodies=4, max_act=5):
     if r is not None:
       ax += r[0]
       acts.append(r[1])
+  dt = float(oa['timestep'])
+  for k, s_ in enumerate(acts):
+    dl = s_.get('delay')
+    key = '@DELAY%s@' % s_['name'][1:]
+    if dl:
+      dl['delay'] = float(fmt(dl['frac'] * dl['nsample'] * dt))
+      ax = ax.replace(key, fmt(dl['delay']))
+      s_['attrs']['delay'] = fmt(dl['delay'])
   if acts:
     xml = xml.replace('</mujoco>', '<actuator>%s</actuator></mujoco>' % ax)
   for s in acts:
     labels.add('act:' + s['kind'])
     labels.add('trn:' + s['trn']['kind'])
   info = dict(info, acts=acts, jfrc=jfrc, tfrc=tfrc, gravcomp=gravcomp, groupdisable=gd, flags=fl,
-              integrator=integ, family=family, tkinds=tkinds, labels=sorted(labels))
+              integrator=integ, family=family, condim1=condim1, timestep=dt, tkinds=tkinds, labels=sorted(labels))
   return ActModel(xml, info)
